@@ -24,7 +24,11 @@ import (
 
 func init() {
 	log.Root().SetHandler(log.DiscardHandler())
-	kernel.Register(&kernel.Rig{
+}
+
+// Describe returns the rig (registered by the composite rigs/c12rig).
+func Describe() *kernel.Rig {
+	return &kernel.Rig{
 		Property: "C12", Name: "partsrig", Level: "exploration",
 		Rule: "Per run one generated block (0-40 txs of 6 kinds, 0-3 evidence, commit of 1-8 slots with absent votes, <= ~64 KiB) and a second unrelated one. IDENTITY is seeded input generation, said plainly: every exported Header field (enumerated by reflection) and tape-chosen body perturbations (tx replace/tweak-one-wire-field/swap/drop/duplicate/insert; the same for evidence; precommit tweak/swap/absent/drop/append; commit block id) are applied to a freshly decoded copy; whenever the encoding changes, Block.Hash() or the part-set hash must change; every Header field except those listed as committed-through-parts-only (Recover) must change Block.Hash(); a changed tx/evidence/precommit list must change Data/Evidence/Commit hash; ValidateBasic must reject header/body disagreement; after the proposer-style refill the block hash must change. REASSEMBLY is the simulated part: a part size from 1 byte to larger than the block, genuine parts delivered to NewPartSetFromHeader in tape order with duplicates, some runs withholding parts, and 0-4 forgeries per genuine part (truncated/flipped/extended bytes, index-shifted, out-of-range and negative index, aunt flipped/dropped/added/swapped/foreign proof, part of the other block, empty part); ground truth 'genuine' = same index, bytes and aunts as the proposer's part. Oracle: genuine added exactly once, forged never, count/bitmap/IsComplete follow the model, never complete while a part is withheld, on completion reader bytes == proposer encoding (also through odd-sized reads and the consensus-style DecodeReader) and decode to a block with the same hash. Non-trivial: >= 2 parts, >= 1 forgery refused, and the set completed or was deliberately starved. Distinct = hash over block hash, part size and the sequence of (delivery kind, outcome).",
 		Real: []string{"types.Block/Header/Data/Commit/EvidenceData hashing and ValidateBasic", "types.PartSet (NewPartSetFromData, NewPartSetFromHeader, AddPart, GetReader/PartSetReader)", "libs/crypto/merkle simple tree, proofs, map hashing", "libs/ser encoding of blocks and parts", "tx/evidence hashing of all generated kinds"},
@@ -39,7 +43,7 @@ func init() {
 		ThoroughRuns: 250000, ThoroughBudget: 14 * time.Minute,
 		RunsPerProcess: 1000,
 		Run:            run,
-	})
+	}
 }
 
 // headerViaPartsOnly lists exported Header fields that are deliberately not
